@@ -28,15 +28,19 @@ RULE = ('sampler zoo (16 univariate configurations incl. wrapper/KDE/constants, 
         '4 sizes x 3 seeds; non-trivial = every transition; distinct = distinct (model, RNG-state vector)')
 ASSUMPTIONS = ['models A, B, U and the twin are separate fits of the same specification (fit is deterministic: C19)']
 
-OPS = ('sA1', 'sA3', 'sB1', 'sB3', 'sU2', 'g', 'xA', 'rA', 'nA', 'fA')
+OPS = ('sA1', 'sA3', 'sB1', 'sB3', 'sU2', 'g', 'xA', 'rA', 'nA', 'fA', 'qA')
 # nA: A.set_random_state(None) - from then on A is driven by the global generator; fA: A is fitted again on its own training data
-# (same parameters, and a fit is not a sample call: the seeded stream simply continues)
+# (same parameters, and a fit is not a sample call: the seeded stream simply continues); qA: A answers queries (density, cdf,
+# quantiles / likelihood) - not sample calls either; what a query does to the GLOBAL generator is not judged (scipy's
+# multivariate normal integral draws from it), the state it leaves is simply taken as the new global state
 
 
 def sampler_specs(tier):
     out = []
     for m in zoo.UNI_MODELS_QUICK:
         out.append(('uni', m, ('normal', 0.0, 1.0, 30)))
+    out.append(('uni', ('truncated', 'wide-bounds'), ('normal', 3.0, 1.5, 30)))
+    out.append(('uni', ('univariate', 'cands-instances'), ('const', 3.0, 20)))
     out.append(('uni', ('gaussian',), ('const', 3.0, 20)))
     out.append(('uni', ('kde', None, None, False), ('const', 3.0, 20)))
     out.append(('uni', ('univariate', 'default'), ('const', 3.0, 20)))
@@ -104,6 +108,30 @@ def _refit(m, spec):
     with warnings.catch_warnings():
         warnings.simplefilter('ignore')
         m.fit(X.copy())
+
+
+def _query(m, spec):
+    """Every query method of the model, on points taken from its training data (no sample call)."""
+    s = spec if spec[0] != 'gm-cond' else ('gm',) + spec[1:]
+    P = zoo.probe_points(s)
+    if spec[0] == 'uni':
+        zoo.attempt(lambda: m.probability_density(P.copy()))
+        zoo.attempt(lambda: m.cumulative_distribution(P.copy()))
+        zoo.attempt(lambda: m.percent_point(np.array([0.1, 0.5, 0.9])))
+        zoo.attempt(lambda: m.log_probability_density(P.copy()))
+    elif spec[0] == 'biv':
+        zoo.attempt(lambda: m.cumulative_distribution(P.copy()))
+        zoo.attempt(lambda: m.probability_density(P.copy()))
+        zoo.attempt(lambda: m.partial_derivative(P.copy()))
+        zoo.attempt(lambda: m.percent_point(np.array([0.2, 0.7]), np.array([0.4, 0.6])))
+    elif spec[0] in ('gm', 'gm-cond'):
+        zoo.attempt(lambda: m.probability_density(P.iloc[:3].copy()))
+        zoo.attempt(lambda: m.cumulative_distribution(P.iloc[:1].copy()))
+        zoo.attempt(lambda: m.cdf(P.iloc[1:2].copy()))
+        zoo.attempt(lambda: m.log_probability_density(P.iloc[:2].copy()))
+    else:
+        zoo.attempt(lambda: m.get_likelihood(np.full((1, P.shape[1]), 0.4)))
+    zoo.attempt(m.to_dict)
 
 
 def _arr(x):
@@ -240,6 +268,12 @@ def run_case(case):
             elif op == 'nA':
                 A.set_random_state(None)
                 ref['A'] = None
+            elif op == 'qA':
+                import warnings
+                with warnings.catch_warnings():
+                    warnings.simplefilter('ignore')
+                    _query(A, spec)
+                ref['G'] = np.random.get_state()
             elif op == 'fA':
                 if _refittable(spec):
                     res_ = zoo.attempt(_refit, A, spec)
@@ -278,7 +312,7 @@ def run_case(case):
         # sequence, after a re-seed, and after the seed was removed
         if pi == 0:
             for hist in (('sA1', 'fA', 'sA1'), ('rA', 'fA', 'sA1'), ('rA', 'sA1', 'fA', 'sA3'), ('nA', 'fA', 'sA1'),
-                         ('sA1', 'nA', 'sA1', 'sU2')):
+                         ('sA1', 'nA', 'sA1', 'sU2'), ('rA', 'qA', 'sA1', 'qA', 'sA3'), ('nA', 'qA', 'sA1')):
                 ref = reset()
                 for k_, op in enumerate(hist):
                     if not step(op, ref, hist[:k_ + 1]):
